@@ -41,7 +41,7 @@ type Case struct {
 	Nest      int            `json:"nest,omitempty"` // MultiRowGroup: 0 flat, 1 Multi(Multi(head), tail...), 2 Multi(first, Multi(rest)), 3 Multi(Multi(a), Multi(b))
 }
 
-var kinds = []string{"rowgroup.Rows", "rowgroup.Rows", "Reader", "Pages", "Pages", "MultiRowGroup", "Buffer", "RowBuffer", "Column.Pages", "ConvertRowReader(forward-only)", "MergeRowGroups.Rows(forward-only)"}
+var kinds = []string{"rowgroup.Rows", "rowgroup.Rows", "Reader", "Pages", "Pages", "MultiRowGroup", "Buffer", "RowBuffer", "RowBuffer.Pages", "Column.Pages", "ConvertRowReader(forward-only)", "MergeRowGroups.Rows(forward-only)"}
 
 // readOnly hides every method of a row reader but ReadRows: ConvertRowReader
 // then provides forward seeks by reading and discarding rows.
@@ -66,7 +66,7 @@ func genCase(t *rapid.T) Case {
 	}
 	c.SkipIndex = rapid.IntRange(0, 3).Draw(t, "skipindex") == 0
 	c.Async = rapid.IntRange(0, 3).Draw(t, "async") == 0
-	if c.Kind != "Buffer" && c.Kind != "RowBuffer" && rapid.IntRange(0, 4).Draw(t, "enc") == 0 {
+	if c.Kind != "Buffer" && c.Kind != "RowBuffer" && c.Kind != "RowBuffer.Pages" && rapid.IntRange(0, 4).Draw(t, "enc") == 0 {
 		c.Enc = rapid.IntRange(1, 2).Draw(t, "encmode")
 	}
 	nops := rapid.IntRange(1, 30).Draw(t, "nops")
@@ -183,7 +183,7 @@ func runCase(c Case, o *kit.Obs) *kit.Failure {
 			return nil
 		}
 		rg = b
-	} else if c.Kind == "RowBuffer" {
+	} else if c.Kind == "RowBuffer" || c.Kind == "RowBuffer.Pages" {
 		b := parquet.NewRowBuffer[any](pq.BuildSchema(&c.Schema))
 		if _, err := b.WriteRows(prows); err != nil {
 			o.Rejected()
@@ -255,6 +255,9 @@ func runCase(c Case, o *kit.Obs) *kit.Failure {
 		}
 	}
 	switch c.Kind {
+	case "RowBuffer.Pages":
+		pages = rg.ColumnChunks()[c.Col].Pages()
+		defer pages.Close()
 	case "Buffer", "RowBuffer":
 		r := rg.Rows()
 		defer r.Close()
@@ -452,13 +455,26 @@ func runCase(c Case, o *kit.Obs) *kit.Failure {
 				if cursor >= n {
 					return kit.Failf("c08/read-past-end"+feat, "op %d: ReadPage returned a page at row %d of %d", i, cursor, n)
 				}
-				vals := make([]parquet.Value, p.NumValues())
-				m, err := p.Values().ReadValues(vals)
+				// the values of the page, read at once or in small batches (op.N selects the batch size)
+				var vals []parquet.Value
+				err = nil
+				vr, batch := p.Values(), op.N%4
+				if batch == 0 {
+					batch = 97
+				}
+				for err == nil {
+					chunk := make([]parquet.Value, batch)
+					var k int
+					k, err = vr.ReadValues(chunk)
+					vals = append(vals, chunk[:k]...)
+					if k == 0 && err == nil {
+						break
+					}
+				}
 				if err != nil && !errors.Is(err, io.EOF) {
 					parquet.Release(p)
 					return kit.Failf("c08/read-error"+feat, "op %d: ReadValues: %v", i, err)
 				}
-				vals = vals[:m]
 				nr := p.NumRows()
 				// expected values: column Col of rows cursor..cursor+nr
 				if cursor+nr > n {
